@@ -641,6 +641,7 @@ func (e *Exec) havocLoop(st *State, body ast.Node, extra []ast.Node, spec *LoopS
 			ks = append(ks, k)
 		}
 		h.HavocAll = true
+		h.HavocID = e.nextHavocID()
 	} else {
 		for k := range keys {
 			ks = append(ks, k)
@@ -658,9 +659,9 @@ func (e *Exec) havocLoop(st *State, body ast.Node, extra []ast.Node, spec *LoopS
 	for _, k := range ks {
 		if !e.ensureKeySort(k) {
 			if h.Unknown == nil {
-				h.Unknown = map[string]bool{}
+				h.Unknown = map[string]int{}
 			}
-			h.Unknown[k] = true
+			h.Unknown[k] = e.nextHavocID()
 			continue
 		}
 		e.touched[k] = true
@@ -737,7 +738,7 @@ func (e *Exec) loopFrame(head, end *State, ord int, given map[string][]designato
 		}
 		_, inEnd := end.Heap[k]
 		_, inHead := head.Heap[k]
-		if !inEnd && !inHead && !end.Unknown[k] {
+		if !inEnd && !inHead && end.Unknown[k] == 0 {
 			continue
 		}
 		now, before := e.heapGet(end, k), e.heapGet(head, k)
